@@ -517,3 +517,17 @@ func (em *emitter) directRegister(reg int8, typ reflect.Type) int8 {
 	em.changeRegister(false, reg, r, typ, typ)
 	return r
 }
+
+// pointerOfArray reports whether expr is the indirection *p of a pointer p to
+// an array, written in the source or added by the type checker for p[i] and
+// p[i:j]. If so, it returns p: indexing, slicing and assigning an element are
+// emitted on the pointer, so that they refer to the pointed array and not to
+// a copy of it.
+func (em *emitter) pointerOfArray(expr ast.Expression) (ast.Expression, bool) {
+	if op, ok := expr.(*ast.UnaryOperator); ok && op.Op == ast.OperatorPointer {
+		if em.typ(expr).Kind() == reflect.Array {
+			return op.Expr, true
+		}
+	}
+	return nil, false
+}
